@@ -13,7 +13,7 @@ use std::str::FromStr;
 
 pub struct C13;
 
-fn intern(s: &str) -> &'static str {
+pub fn intern(s: &str) -> &'static str {
     thread_local! {
         static NAMES: std::cell::RefCell<std::collections::HashSet<&'static str>> = std::cell::RefCell::new(Default::default());
     }
@@ -243,7 +243,7 @@ impl Check for C13 {
         ctx.eval();
         match workload {
             "dyn-serialized" => {
-                let shape = gdyn::gen_root_shape(rng);
+                let shape = gdyn::gen_root_shape_wrapped(rng);
                 let v = gdyn::gen_value(rng, &shape);
                 ctx.set_input(&format!("shape: {shape:?}\nvalue: {v:?}"));
                 let text = match guarded(|| toml::to_string(&Ser(&shape, &v))) {
@@ -338,13 +338,13 @@ impl Check for C13 {
                     self.agree(ctx, &shape, &text, Some(&want), "inferred-shape");
                 } else {
                     // an unrelated shape: whatever happens, all routes must agree
-                    let shape = gdyn::gen_root_shape(rng);
+                    let shape = gdyn::gen_root_shape_wrapped(rng);
                     ctx.nontrivial(hash_bytes(format!("{text}{shape:?}").as_bytes()));
                     self.agree(ctx, &shape, &text, None, "foreign-shape");
                 }
             }
             "try_from-vs-text" => {
-                let shape = gdyn::gen_root_shape(rng);
+                let shape = gdyn::gen_root_shape_wrapped(rng);
                 let v = gdyn::gen_value(rng, &shape);
                 ctx.set_input(&format!("shape: {shape:?}\nvalue: {v:?}"));
                 let r = guarded(|| {
@@ -360,6 +360,15 @@ impl Check for C13 {
                             (Ok(a), Ok(t), Ok(b)) => (a, t, b),
                             (Err(_), Err(_), Err(_)) => {
                                 ctx.count("try_from/all-refuse");
+                                return;
+                            }
+                            (Ok(_), Err(_), Err(_)) if {
+                                let u = gdyn::unsupported(&shape, &v);
+                                u.non_table_root || u.struct_variant_at_root || u.tuple_variant_at_root
+                            } =>
+                            {
+                                // not a table at the root: a value, but neither a table nor a document
+                                ctx.count("try_from/value-only (root is not a table)");
                                 return;
                             }
                             (a, t, b) => {
